@@ -2,6 +2,7 @@
 // case:   <id> <indent> <width> <indentFirst 0|1> <text as hex | ->
 // result: <output as hex | -> ##
 #include <algorithm>
+#include <iomanip>
 #include <sstream>
 #include <stdexcept>
 #include <string>
@@ -27,6 +28,20 @@ std::string run_case(const std::vector<std::string>& w)
       return std::string("E:") + e.what();
    }
    const std::string out = oss.str();
+   // the same text on a stream in the state in which the usage code leaves its stream (left adjustment, another
+   // fill character): indentation and words must not depend on the formatting state of the caller's stream
+   std::ostringstream oss2;
+   oss2 << std::left;
+   oss2.fill('*');
+   try
+   {
+      celma::format::TextBlock tb(indent, width, first);
+      tb.format(oss2, txt);
+   } catch (const std::exception& e)
+   {
+      return vf::hex(out) + "!stream-state:E ##";
+   }
+   if (oss2.str() != out) return vf::hex(out) + "!stream-state:" + vf::hex(oss2.str()) + " ##";
    return vf::hex(out) + " ##";
 }
 
